@@ -130,8 +130,8 @@ def cases(tier):
     b3 = [11, 12, 13, 41, 42, 43, 161, 162, 163, 641, 642, 643]
     bc = [7, 8, 9, 25, 26, 27, 97, 98, 99, 385, 386, 387]
     if tier == "quick":
-        N3 = sorted(set(list(range(1, 65)) + b3 + bc))
-        N4 = sorted(set(list(range(1, 25)) + [39, 40, 41]))
+        N3 = sorted(set(list(range(1, 131)) + b3 + bc))
+        N4 = sorted(set(list(range(1, 41)) + [41, 42]))
         fd = [8, 40]
         pref = [("ico", 3), ("cube3D", 3), ("cube4D", 2)]
     else:
@@ -169,13 +169,13 @@ def run(ctx):
     rep.coverage = {
         "evaluations": len(cs) + sum(r["N"] for c, r in zip(order, res) if c.get("kind") == "prefix"),
         "distinct_nontrivial": sum(1 for c in cs if c.get("N", 0) >= 2) + sum(1 for c in cs if c.get("kind") == "prefix"),
-        "rule": "SphereGridFactory.create for every N in the bound (3-D: 1..64 + every level boundary +-1 up to 643; "
-                "4-D: 1..24, 39-41; thorough 1..400 / 1..272) x all algorithms + fulldiv sizes + zero grids + N=1 by name; "
+        "rule": "SphereGridFactory.create for every N in the bound (3-D: 1..130 + every level boundary +-1 up to 643; "
+                "4-D: 1..42; thorough 1..400 / 1..272) x all algorithms + fulldiv sizes + zero grids + N=1 by name; "
                 "plus every prefix length of the level-3/4 (3-D) and level-2 (4-D) polytope node arrays; "
                 "distinct_nontrivial = grids with N >= 2 and prefix sweeps",
         "samples": collect_samples([f"{c.get('alg', c.get('kind'))}_{c.get('N', '')}" for c in cs], 6),
-        "exhaustive": True, "bound": {"N3": "1..64+boundaries" if ctx.tier == "quick" else "1..400+comb..2562",
-                                      "N4": "1..24,39-41" if ctx.tier == "quick" else "1..272"},
+        "exhaustive": True, "bound": {"N3": "1..130+boundaries" if ctx.tier == "quick" else "1..400+comb..2562",
+                                      "N4": "1..42" if ctx.tier == "quick" else "1..272"},
     }
     rep.assumptions = ["distinct means chord distance > 1e-6", "separation bounds only for polytope algorithms"]
     return rep
